@@ -95,20 +95,19 @@ Print Assumptions C19_coretemp_legacy_refuted.
    AC0/AC; attribute texts are SIGNED integers (optional '+'/'-', surrounding blanks, 0, -0): never TypeError/ValueError;
    percent = 100*now/full (0 when full = 0) else capacity, None when neither; seconds = now*3600/|power| (whole
    seconds), UNLIMITED when plugged, UNKNOWN when power is 0 or unknown (time_to_empty_now < 0 included); plugged from the
-   adapter, else from status.  Excluded (known finding, refuted below): a NEGATIVE power that is used and gives a
-   non-zero number of seconds *)
+   adapter, else from status.  No exclusion: a negative power_now / current_now (discharging) counts by its magnitude *)
 Theorem C19_battery_values : forall b ac0 ac, kbat_ok b = true -> tte_unused b = true ->
-  neg_power_matters b ac0 ac = false ->
   battery_of (bat_files b) (to_fres k_online ac0) (to_fres k_online ac) = Val (spec_battery b ac0 ac).
 Proof. exact battery_values. Qed.
 Print Assumptions C19_battery_values.
 
-(* known finding: a negative current_now / power_now (signed fuel gauges while discharging) gives a negative
-   number of seconds instead of now*3600/|power|: 3 Ah at -1 A -> -10800 *)
+(* the code before commit 90bacb2 ([battery_of_at true], signed division): a negative current_now / power_now gave a
+   negative number of seconds: 3 Ah at -1 A -> -10800; the code as it is answers 10800 *)
 Theorem C19_battery_negative_power_refuted :
   exists b r r', kbat_ok b = true /\ tte_unused b = true /\
-    battery_of (bat_files b) FAbsent FAbsent = Val (Some r) /\ bt_secsleft r = -10800 /\
-    spec_battery b Absent Absent = Some r' /\ bt_secsleft r' = 10800 /\ bt_percent r = bt_percent r'.
+    battery_of_at true (bat_files b) FAbsent FAbsent = Val (Some r) /\ bt_secsleft r = -10800 /\
+    spec_battery b Absent Absent = Some r' /\ bt_secsleft r' = 10800 /\ bt_percent r = bt_percent r' /\
+    battery_of (bat_files b) FAbsent FAbsent = Val (Some r').
 Proof. exact battery_negative_power_refuted. Qed.
 Print Assumptions C19_battery_negative_power_refuted.
 
@@ -120,7 +119,7 @@ Theorem C19_battery_selection : forall l ac0 ac, supply_ok l = true ->
   | x :: r =>
     let b := snd (min_entry x r) in
     In (min_entry x r) (batteries l) /\
-    (tte_unused b = true -> neg_power_matters b ac0 ac = false ->
+    (tte_unused b = true ->
      sensors_battery true (Some (supply_listing l)) (to_fres k_online ac0) (to_fres k_online ac)
      = Val (spec_battery b ac0 ac))
   end.
